@@ -154,6 +154,8 @@ def atoms(test, pol):
         return []
     if isinstance(test, ast.UnaryOp) and isinstance(test.op, ast.Not):
         return atoms(test.operand, not pol)
+    if isinstance(test, ast.Call) and isinstance(test.func, ast.Name) and test.func.id == "bool" and len(test.args) == 1 and not test.keywords:
+        return atoms(test.args[0], pol)      # bool(x) in a test is the truth of x
     if isinstance(test, ast.BoolOp):
         if (isinstance(test.op, ast.And) and pol) or (isinstance(test.op, ast.Or) and not pol):
             out = []
